@@ -3,7 +3,7 @@
 import json, os
 HERE = os.path.dirname(os.path.abspath(__file__))
 
-ENV = ["ctx_expect", "hash_model", "list_wrap", "fmt_stub", "metadata_obj"]
+ENV = ["ctx_expect", "hash_model_memo", "list_wrap", "fmt_stub", "metadata_obj"]
 TUS = ["hashchain", "hash", "types_base", "tlv_element", "fast_tlv"]
 FS = ["--max-field-sensitivity-array-size", "256"]
 RESTRICT = ["KSI_List_free.function_pointer_call.1/KSI_HashChainLink_free,KSI_TlvElement_free"]
@@ -66,6 +66,19 @@ B_H2A = ("1..3 accepted leaves (thorough up to 7) followed by one leaf the refer
          "the run ends after the refused add")
 B_H2B = ("concrete level vectors per instance (refusal at carry depth 0, 1 (thorough 2), by a concrete maxTreeLevel, with metadata), digests symbolic; "
          "the run continues after the refusal: more leaves, close, chains of all accepted leaves")
+def bs_inst(label, **d):
+    return {"label": label, "defines": ["%s=%s" % (k, v) for k, v in d.items()]}
+h3_quick = [bs_inst("leaves_n2_MM_mask", MODE=1, NLEAVES=2, MDS="{1,1,0,0,0,0,0,0}", MASK=1),
+            bs_inst("leaves_n2_hM_nomask", MODE=1, NLEAVES=2, MDS="{0,1,0,0,0,0,0,0}", MASK=0),
+            bs_inst("reset_n1", MODE=2, NLEAVES=1, MASK=1)]
+h3_thorough = h3_quick + [bs_inst("leaves_n3_MhM_mask", MODE=1, NLEAVES=3, MDS="{1,0,1,0,0,0,0,0}", MASK=1),
+                          bs_inst("leaves_n1_h_mask", MODE=1, NLEAVES=1, MDS="{0,0,0,0,0,0,0,0}", MASK=1),
+                          bs_inst("leaves_n4_MMMM_mask", MODE=1, NLEAVES=4, MDS="{1,1,1,1,0,0,0,0}", MASK=1),
+                          bs_inst("reset_n2_closed", MODE=2, NLEAVES=2, MASK=1, CLOSE_BEFORE_RESET=1),
+                          bs_inst("reset_n1_nomask", MODE=2, NLEAVES=1, MASK=0)]
+B_H3 = ("block signer with SHA2-256: 2 leaves (thorough 1..4) with / without per-leaf metadata (4-byte payload) and with / without blinding masks (8-byte initial value); all digests, payloads, "
+        "iv bytes symbolic, leaf levels symbolic 0..249; reset after 1 leaf (thorough: after 2 leaves and closeAndSign) compared field by field and by behaviour with a new signer; "
+        "KSI_Signature_signAggregated / KSI_Signature_free are recording stubs")
 plan = {
  "property": "C16",
  "outside": ("KSI_BlockSignerHandle_getSignature / KSI_BlockSigner_closeAndSign (need a server reply and the signature builder / parser); the block signer's leaf processors "
@@ -92,6 +105,11 @@ plan = {
        bound=B_H2A, instances=h2a_quick, thorough={"instances": h2a_thorough, "timeout": 1800}),
   dict(common, name="h2b_after", global_defines=["HM_LOG_MAX=72", "HM_REC_MAX=8"],
        bound=B_H2B, instances=h2b_quick, thorough={"instances": h2b_thorough, "timeout": 1800}),
+  dict(common, name="h3_blocksigner", src="h3_blocksigner.c", global_defines=["HM_LOG_MAX=72", "HM_REC_MAX=20"], harness_unwind=260,
+       unwindset=common["unwindset"] + ["KSI_TreeBuilder_free.0:257"],
+       functions=["KSI_BlockSigner_new", "KSI_BlockSigner_addLeaf", "KSI_BlockSigner_closeAndSign", "KSI_BlockSigner_reset", "KSI_BlockSigner_getPrevLeaf", "metaDataProcessor", "maskingProcessor",
+                  "processAndInsertNode", "levelWithOverhead", "KSI_TreeBuilder_free"] + common["functions"],
+       bound=B_H3, instances=h3_quick, thorough={"instances": h3_thorough, "timeout": 1800}),
  ]}
 json.dump(plan, open(os.path.join(HERE, "plan.json"), "w"), indent=1)
 print("wrote plan.json:", sum(len(h.get("instances", [1])) for h in plan["harnesses"]), "quick instances")
